@@ -1,4 +1,6 @@
 import LoguruModel.Parse.Finditer
+import LoguruModel.Parse.Trace
+import LoguruModel.Parse.Cont
 /-
 C20 – `logger.parse()` is independent of the chunk size and equals a whole-text regex scan.
 Only the property theorems and their non-vacuity examples live here.  Model: Parse/Model.lean
@@ -216,6 +218,319 @@ theorem caller_file_left_open (file : FileArg) (cast : CastArg κ ν)
 
 end parse
 
+/-! ### round 5: the hold-back rule and the buffer -/
+
+/-- after a round that trims, the buffer holds exactly ONE match – the last match of the round,
+with the same value – and nothing of the matches that were yielded -/
+theorem trim_keeps_exactly_the_last_match (scan : Scanner α γ) (H : Local scan)
+    (cs : List (List α)) (c : List α)
+    (hg : Gen.guard (scan ((run scan cs).buf ++ c)).length = true) :
+    (scan (run scan (cs ++ [c])).buf).map (·.val)
+      = ((scan ((run scan cs).buf ++ c)).drop ((scan ((run scan cs).buf ++ c)).length - 1)).map (·.val) ∧
+    (scan (run scan (cs ++ [c])).buf).length = 1 := by
+  obtain ⟨he, _⟩ := run_invariant scan H cs
+  have h2 := guard_sound _ hg
+  have hr := H.restart ((run scan cs).buf ++ c) ((scan ((run scan cs).buf ++ c)).length - 2) (by omega)
+  have hb : (run scan (cs ++ [c])).buf
+      = ((run scan cs).buf ++ c).drop ((scan ((run scan cs).buf ++ c))[(scan ((run scan cs).buf ++ c)).length - 2]'(by omega)).e := by
+    rw [run_append]; unfold step
+    simp only [he, hg, ↓reduceIte, trimBack_eq, negIdx_two _ h2]
+  rw [hb]
+  have hidx : (scan ((run scan cs).buf ++ c)).length - 2 + 1 = (scan ((run scan cs).buf ++ c)).length - 1 := by omega
+  rw [hidx] at hr
+  refine ⟨hr, ?_⟩
+  have := congrArg List.length hr
+  simp only [List.length_map, List.length_drop] at this
+  omega
+
+/-- the buffer is always a suffix of the text read so far: trimming only ever drops a prefix, so
+no character is seen twice or out of order by the scanner – for EVERY scanner -/
+theorem buffer_is_suffix_of_input (scan : Scanner α γ) (cs : List (List α))
+    (h : (run scan cs).err = none) : (run scan cs).buf <:+ cs.flatten := by
+  have := foldl_buf_suffix scan cs { buf := [], out := [], err := none } [] (List.suffix_refl _) h
+  simpa [run] using this
+
+/-- what was dropped from the buffer is exactly covered by yielded matches or skipped text: the
+yielded values plus the scan of the suffix kept equal the scan of everything read (for a `Local`
+scanner the buffer can be dropped up to the held-back match without changing the result) -/
+theorem buffer_suffix_and_pending (scan : Scanner α γ) (H : Local scan) (cs : List (List α)) :
+    (run scan cs).buf <:+ cs.flatten ∧
+    (run scan cs).out ++ (scan (run scan cs).buf).map (·.val) = (scan cs.flatten).map (·.val) :=
+  ⟨buffer_is_suffix_of_input scan cs (run_invariant scan H cs).1, yielded_plus_pending scan H cs⟩
+
+/-! ### round 5: a match that grows although it does not reach the end of the buffer -/
+
+/-- `[^\n]*\n(?: [^\n]*\n)*` – a line and all complete indented lines after it – satisfies (R),(P) -/
+theorem cont_scanner_local [DecidableEq α] (nl sp : α) : Local (contScanner nl sp) := contScanner_local nl sp
+
+/-- every chunking of every text yields the records of the whole-text scan -/
+theorem cont_scanner_any_chunking [DecidableEq α] (nl sp : α) (reads : List (List α)) :
+    findIter (contScanner nl sp) reads
+      = (contGroups nl sp (lines nl (readable reads).flatten), none) := by
+  rw [find_iter_eq_scan _ (contScanner_local nl sp)]
+  simp [contScanner, tiling, spansOf_map_val, contPieces, Function.comp_def]
+
+/-- the last match of a buffer can end BEFORE the end of the buffer and still grow when a further
+complete piece arrives: "it does not reach the end of the buffer" does not make a match final -/
+theorem last_match_grows_without_reaching_buffer_end :
+    ∃ (t u : List Char) (m m' : Span (List Char)),
+      contScanner '\n' ' ' t = [m] ∧ m.e < t.length ∧
+      contScanner '\n' ' ' (t ++ u) = [m'] ∧ m.e < m'.e :=
+  ⟨"a\n b".toList, "\n".toList, ⟨0, 2, "a\n".toList⟩, ⟨0, 5, "a\n b\n".toList⟩, by decide⟩
+
+/-- hence the cheaper-looking rule "hold the last match back only if it reaches the end of the
+buffer" (`goEager`) is WRONG for a scanner inside the property's domain, on a chunking where
+`_find_iter` as written is right -/
+theorem eager_hold_back_rule_is_wrong :
+    ∃ reads : List (List Char),
+      goEager (contScanner '\n' ' ') [] reads ≠ (contScanner '\n' ' ' (readable reads).flatten).map (·.val) ∧
+      (findIter (contScanner '\n' ' ') reads).1 = (contScanner '\n' ' ' (readable reads).flatten).map (·.val) :=
+  ⟨["a\n b".toList, "\n".toList], by decide, by rw [find_iter_eq_scan _ (contScanner_local '\n' ' ')]⟩
+
+/-! ### round 5: the tests of the source the model is defined through (regenerated kernels) -/
+
+/-- `_find_iter` ends its loop exactly on an EMPTY read: a short read (`read(k)` returning fewer than
+`k` items, as pipes, sockets and text decoders do) is not end of input.  `Gen.eofTest` is the test
+found in the source, as a function of len(text) and chunk. -/
+theorem eof_only_on_empty_read (n k : Nat) : Gen.eofTest n k = true ↔ n = 0 := by
+  rw [eofTest_eq]; simp
+
+/-- the cast-dict loop applies a converter exactly when the key is in the groupdict – also when the
+value is `None` (group did not participate) or falsy (group matched the empty string) -/
+theorem cast_applies_to_every_present_key (isNone truthy : Bool) :
+    Gen.castApplies true isNone truthy = true ∧ Gen.castApplies false isNone truthy = false := by
+  simp [castApplies_eq]
+
+/-- `str` and `os.PathLike` arguments are opened by the function, and the object itself is handed
+to `open()` (so `__fspath__` decides, not `__str__`) -/
+theorem path_arguments_opened_as_given :
+    Gen.opensStr = true ∧ Gen.opensPathLike = true ∧ Gen.openViaStr = false := by decide
+
+/-! ### round 5: `parse` as a lazy pipeline – every way the iteration can end -/
+
+section trace
+variable {κ ν : Type} [DecidableEq κ]
+
+/-- The lazy generator hands its consumer exactly what `findIter` computes, for EVERY scanner (no
+locality needed) and every sequence of successful reads: the event-trace model refines the function
+the chunk-independence theorems are about. -/
+theorem lazy_pipeline_refines_find_iter (scan : Scanner α γ) (chunk : Nat) (reads : List (List α)) :
+    itemsUntilFail (findIterActs true scan chunk (reads.map .ok)) = findIter scan reads :=
+  findIterActs_eq_findIter scan chunk reads
+
+/-- A generator that is created but never advanced runs nothing: no argument check, no `open`. -/
+theorem unstarted_generator_does_nothing (s : Src α) (cast : CastArgE κ ν) (vv : ValView ν)
+    (scan : Scanner α (List (κ × ν))) : parseTrace s cast vv scan (some 0) = [] := by
+  simp [parseTrace]
+
+/-- Invalid `file`, `cast` or pattern: the first `next()` raises TypeError and nothing else happens. -/
+theorem bad_arguments_raise_at_first_next (s : Src α) (cast : CastArgE κ ν) (vv : ValView ν)
+    (scan : Scanner α (List (κ × ν))) (limit : Option Nat) (hl : limit ≠ some 0)
+    (h : s.file = .other ∨ cast.valid = false ∨ s.patternOk = false) :
+    parseTrace s cast vv scan limit = [.raised .typeError] := by
+  unfold parseTrace
+  by_cases hf : s.file = .other
+  · simp [hl, Src.own, Src.fileObj, hf]
+  · rcases h with h | h | h
+    · exact absurd h hf
+    · cases cast with
+      | invalid => simp only [hl, ↓reduceIte]; split <;> rfl
+      | dict d => simp [CastArgE.valid] at h
+      | fn f => simp [CastArgE.valid] at h
+    · cases cast with
+      | invalid => simp only [hl, ↓reduceIte]; split <;> rfl
+      | dict d => simp only [hl, ↓reduceIte, h]; split <;> simp
+      | fn f => simp only [hl, ↓reduceIte, h]; split <;> simp
+
+/-- **Files the function opened are closed when iteration ends – however it ends.**  For a path or
+path-like argument, ANY scanner, ANY outcomes of the reads (pieces of any size, a read that raises),
+ANY cast (converters that raise included), a consumer that iterates to exhaustion or calls `close()`
+after any number of items, a pattern of the wrong string type: the trace is `opened`, then events
+among read / yielded, then `closed` – exactly once – and after it nothing but the exception, if one
+ended the iteration, reaching the consumer. -/
+theorem path_file_closed_on_every_path (s : Src α) (cast : CastArgE κ ν) (vv : ValView ν)
+    (scan : Scanner α (List (κ × ν))) (limit : Option Nat)
+    (hf : s.file = .pathStr ∨ s.file = .pathLike) (hc : cast.valid = true) (hp : s.patternOk = true)
+    (ho : s.openErr = none) (hl : limit ≠ some 0) :
+    ∃ mid tail, parseTrace s cast vv scan limit = [.opened] ++ mid ++ [.closed] ++ tail ∧
+      (∀ e ∈ mid, e.inner = true) ∧ (tail = [] ∨ ∃ e, tail = [.raised e]) := by
+  have h1 : Gen.opensStr = true := by decide
+  have h2 : Gen.opensPathLike = true := by decide
+  have h3 : Gen.openViaStr = false := by decide
+  have hown : s.own = true := by rcases hf with h | h <;> simp [Src.own, h, h1, h2]
+  have hof : s.openFails = none := by simp [Src.openFails, h3, ho]
+  rw [parseTrace_own s cast vv scan limit hown hc hp hof hl]
+  obtain ⟨mid, tail, h, hm, ht⟩ := consume_own_shape (applyCastE vv cast) (findIterActs s.kindOk scan s.chunk s.reads) limit
+  exact ⟨mid, tail, by simp [h], hm, ht⟩
+
+/-- `open()` itself failing: the exception reaches the consumer, nothing was opened, nothing is read. -/
+theorem open_failure_reaches_consumer (s : Src α) (cast : CastArgE κ ν) (vv : ValView ν)
+    (scan : Scanner α (List (κ × ν))) (limit : Option Nat) (e : Err)
+    (hf : s.file = .pathStr ∨ s.file = .pathLike) (hc : cast.valid = true) (hp : s.patternOk = true)
+    (ho : s.openErr = some e) (hl : limit ≠ some 0) :
+    parseTrace s cast vv scan limit = [.raised e] := by
+  have h1 : Gen.opensStr = true := by decide
+  have h2 : Gen.opensPathLike = true := by decide
+  have h3 : Gen.openViaStr = false := by decide
+  have hown : s.own = true := by rcases hf with h | h <;> simp [Src.own, h, h1, h2]
+  have hof : s.openFails = some e := by simp [Src.openFails, h3, ho]
+  unfold parseTrace
+  cases cast with
+  | invalid => simp [CastArgE.valid] at hc
+  | dict d => simp [hl, hown, hp, hof]
+  | fn f => simp [hl, hown, hp, hof]
+
+/-- A path-like is opened through `__fspath__`: what `str()` of it looks like is irrelevant (F13). -/
+theorem pathlike_opened_whatever_its_str (s : Src α) (b : Bool) (cast : CastArgE κ ν) (vv : ValView ν)
+    (scan : Scanner α (List (κ × ν))) (limit : Option Nat) :
+    parseTrace { s with strIsPath := b } cast vv scan limit = parseTrace s cast vv scan limit := by
+  have h3 : Gen.openViaStr = false := by decide
+  unfold parseTrace
+  simp [Src.own, Src.fileObj, Src.openFails, h3]
+
+/-- A caller's file object (text or binary) is only read: never opened, never closed by the
+function – on every path (exhaustion, `close()`, exceptions). -/
+theorem caller_file_never_opened_or_closed (s : Src α) (cast : CastArgE κ ν) (vv : ValView ν)
+    (scan : Scanner α (List (κ × ν))) (limit : Option Nat)
+    (hf : s.file = .textFile ∨ s.file = .binaryFile) :
+    ∀ e ∈ parseTrace s cast vv scan limit, e.inner = true := by
+  have hown : s.own = false := by rcases hf with h | h <;> simp [Src.own, h]
+  have hfo : s.fileObj = true := by rcases hf with h | h <;> simp [Src.fileObj, h]
+  intro e he
+  by_cases hl : limit = some 0
+  · simp [parseTrace, hl] at he
+  by_cases hc : cast.valid = true
+  · by_cases hp : s.patternOk = true
+    · rw [parseTrace_fileobj s cast vv scan limit hown hfo hc hp hl] at he
+      exact consume_fileobj_shape _ _ _ e he
+    · have := bad_arguments_raise_at_first_next s cast vv scan limit hl (Or.inr (Or.inr (by simpa using hp)))
+      rw [this] at he; simp at he; subst he; rfl
+  · have := bad_arguments_raise_at_first_next s cast vv scan limit hl (Or.inr (Or.inl (by simpa using hc)))
+    rw [this] at he; simp at he; subst he; rfl
+
+/-- An exception that reaches the consumer (from a converter, from `read`, from the scan, from
+`open`) is the last event: nothing is read or yielded after it, and the function's own file has
+been closed before. -/
+theorem exception_ends_iteration (s : Src α) (cast : CastArgE κ ν) (vv : ValView ν)
+    (scan : Scanner α (List (κ × ν))) (limit : Option Nat) (pre post : List (TEv (List (κ × ν)))) (e : Err)
+    (hc : cast.valid = true) (hp : s.patternOk = true) (hf : (s.own || s.fileObj) = true)
+    (h : parseTrace s cast vv scan limit = pre ++ .raised e :: post) :
+    post = [] := by
+  by_cases hl : limit = some 0
+  · simp [parseTrace, hl] at h
+  by_cases hown : s.own = true
+  · cases ho : s.openFails with
+    | some e' =>
+      unfold parseTrace at h
+      cases cast with
+      | invalid => simp [CastArgE.valid] at hc
+      | dict d =>
+        simp only [hl, hown, hp, ho, ↓reduceIte, Bool.true_or, Bool.not_true, Bool.false_eq_true] at h
+        cases pre with
+        | nil => simp at h; exact h.2
+        | cons x pre => cases pre <;> simp at h
+      | fn f =>
+        simp only [hl, hown, hp, ho, ↓reduceIte, Bool.true_or, Bool.not_true, Bool.false_eq_true] at h
+        cases pre with
+        | nil => simp at h; exact h.2
+        | cons x pre => cases pre <;> simp at h
+    | none =>
+      rw [parseTrace_own s cast vv scan limit hown hc hp ho hl] at h
+      cases pre with
+      | nil => simp at h
+      | cons x pre =>
+        simp only [List.cons_append, List.cons.injEq] at h
+        exact consume_raise_is_last _ _ _ _ pre post e h.2
+  · have hown' : s.own = false := by simpa using hown
+    have hfo : s.fileObj = true := by simpa [hown'] using hf
+    rw [parseTrace_fileobj s cast vv scan limit hown' hfo hc hp hl] at h
+    exact consume_raise_is_last _ _ _ _ pre post e h
+
+/-- **What the consumer receives on every path.**  Reads that do not fail, a scanner with (R),(P):
+the dicts received are `deliver cast limit` of the whole-text scan – the casts of the first matches,
+until a converter raises or the consumer has had `limit` items – for every sequence of read sizes. -/
+theorem trace_yields_eq_deliver_scan (s : Src α) (reads : List (List α)) (cast : CastArgE κ ν)
+    (vv : ValView ν) (scan : Scanner α (List (κ × ν))) (H : Local scan) (limit : Option Nat)
+    (hr : s.reads = reads.map .ok) (hk : s.kindOk = true)
+    (hf : (s.own || s.fileObj) = true) (hc : cast.valid = true) (hp : s.patternOk = true)
+    (ho : s.openFails = none) (hl : limit ≠ some 0) :
+    yieldsOf (parseTrace s cast vv scan limit)
+      = deliver (applyCastE vv cast) limit ((scan (readable reads).flatten).map (·.val)) := by
+  rw [parseTrace_yields s cast vv scan limit hf hc hp ho hl, hr, hk,
+    findIterActs_eq_findIter, find_iter_eq_scan scan H]
+
+/-- the i-th dict received is the cast of the i-th match of the whole-text scan – whatever ended or
+interrupted the iteration later -/
+theorem each_yield_is_cast_of_its_match (s : Src α) (reads : List (List α)) (cast : CastArgE κ ν)
+    (vv : ValView ν) (scan : Scanner α (List (κ × ν))) (H : Local scan) (limit : Option Nat)
+    (hr : s.reads = reads.map .ok) (hk : s.kindOk = true)
+    (hf : (s.own || s.fileObj) = true) (hc : cast.valid = true) (hp : s.patternOk = true)
+    (ho : s.openFails = none) (hl : limit ≠ some 0) (i : Nat) (w : List (κ × ν))
+    (hw : (yieldsOf (parseTrace s cast vv scan limit))[i]? = some w) :
+    ∃ m, (scan (readable reads).flatten)[i]? = some m ∧ applyCastE vv cast m.val = .ok w := by
+  rw [trace_yields_eq_deliver_scan s reads cast vv scan H limit hr hk hf hc hp ho hl] at hw
+  obtain ⟨x, hx, hcx⟩ := deliver_pointwise _ _ _ _ _ hw
+  rw [List.getElem?_map] at hx
+  cases hm : (scan (readable reads).flatten)[i]? with
+  | none => simp [hm] at hx
+  | some m => simp [hm] at hx; subst hx; exact ⟨m, rfl, hcx⟩
+
+/-- converters that never raise, consumer iterating to exhaustion: the trace model gives what
+`parse` (the function of the earlier theorems) gives – for every scanner -/
+theorem trace_refines_parse (s : Src α) (reads : List (List α)) (cast : CastArg κ ν)
+    (vv : ValView ν) (scan : Scanner α (List (κ × ν)))
+    (hr : s.reads = reads.map .ok) (hk : s.kindOk = true)
+    (hf : (s.own || s.fileObj) = true) (hc : cast.lift.valid = true) (hp : s.patternOk = true)
+    (ho : s.openFails = none) :
+    yieldsOf (parseTrace s cast.lift vv scan none) = (findIter scan reads).1.map (applyCast cast) := by
+  rw [parseTrace_yields s cast.lift vv scan none hf hc hp ho (by simp), hr, hk, findIterActs_eq_findIter]
+  have : applyCastE vv cast.lift = fun g => Except.ok (applyCast cast g) := by
+    funext g; exact applyCastE_lift vv cast g
+  rw [this, deliver_total]
+
+/-- a consumer that calls `close()` after `n ≥ 1` items received exactly the first `n` dicts of the
+whole-text result (all of them if there are fewer) -/
+theorem early_close_gets_first_n (s : Src α) (reads : List (List α)) (cast : CastArg κ ν)
+    (vv : ValView ν) (scan : Scanner α (List (κ × ν))) (H : Local scan) (n : Nat) (hn : 1 ≤ n)
+    (hr : s.reads = reads.map .ok) (hk : s.kindOk = true)
+    (hf : (s.own || s.fileObj) = true) (hc : cast.lift.valid = true) (hp : s.patternOk = true)
+    (ho : s.openFails = none) :
+    yieldsOf (parseTrace s cast.lift vv scan (some n))
+      = ((scan (readable reads).flatten).map (fun m => applyCast cast m.val)).take n := by
+  rw [trace_yields_eq_deliver_scan s reads cast.lift vv scan H (some n) hr hk hf hc hp ho (by simp; omega)]
+  have : applyCastE vv cast.lift = fun g => Except.ok (applyCast cast g) := by
+    funext g; exact applyCastE_lift vv cast g
+  rw [this, deliver_limit _ _ n hn, List.map_map]
+  rfl
+
+/-- a converter raising on match number `i` (none before): exactly the first `i` dicts arrive -/
+theorem converter_error_stops_at_that_record (s : Src α) (reads : List (List α)) (cast : CastArgE κ ν)
+    (vv : ValView ν) (scan : Scanner α (List (κ × ν))) (H : Local scan)
+    (hr : s.reads = reads.map .ok) (hk : s.kindOk = true)
+    (hf : (s.own || s.fileObj) = true) (hc : cast.valid = true) (hp : s.patternOk = true)
+    (ho : s.openFails = none)
+    (i : Nat) (hi : i < (scan (readable reads).flatten).length) (e : Err)
+    (he : applyCastE vv cast ((scan (readable reads).flatten)[i]).val = .error e)
+    (hb : ∀ j (hj : j < i), ∃ w, applyCastE vv cast ((scan (readable reads).flatten)[j]'(by omega)).val = .ok w) :
+    (yieldsOf (parseTrace s cast vv scan none)).length = i := by
+  rw [trace_yields_eq_deliver_scan s reads cast vv scan H none hr hk hf hc hp ho (by simp)]
+  refine deliver_stops_at_failure _ _ i (by simpa using hi) e (by simpa using he) ?_
+  intro j hj
+  obtain ⟨w, hw⟩ := hb j hj
+  exact ⟨w, by simpa using hw⟩
+
+/-- a cast dict (distinct keys) converts the value of each listed key that is present exactly once
+and leaves every other entry alone – for every value, `None` and `''` included -/
+theorem cast_dict_converts_exactly_listed_keys (d : List (κ × (ν → ν))) (hd : (d.map (·.1)).Nodup)
+    (g : List (κ × ν)) (k : κ) :
+    lookup k (castDict d g) =
+      match convFor k d with
+      | some f => (lookup k g).map f
+      | none => lookup k g :=
+  lookup_castDict d hd g k
+
+end trace
+
 /-! ### non-vacuity: concrete scanners satisfy the hypotheses; the theorem runs on them -/
 
 /-- `[^\n]*\n|[^\n]+` -/
@@ -281,5 +596,61 @@ example : (finditer (lineMatcher '\n') "ab\n\ncd".toList).map (fun m => (m.s, m.
     = [(0, 3), (3, 4), (4, 6)] := by decide
 -- bytes files: the same scanner over UInt8
 example : findIter (lineScanner (10 : UInt8)) [[97, 10, 98], [99]] = ([[97, 10], [98, 99]], none) := by decide
+-- records with continuation lines, chunk size 1 and 3: the record grows piece by piece and is yielded once
+example : findIter (contScanner '\n' ' ') (chunksOf 1 "a\n b\nc\n\n d\nf".toList)
+    = (["a\n b\n".toList, "c\n".toList, "\n d\n".toList], none) := by decide
+example : findIter (contScanner '\n' ' ') (chunksOf 3 "a\n b\nc\n\n d\nf".toList)
+    = (["a\n b\n".toList, "c\n".toList, "\n d\n".toList], none) := by decide
+-- after a trimming round exactly the last match is in the buffer
+example : (run (contScanner '\n' ' ') ["a\n b\nc\ne\n".toList, " d".toList]).buf = "e\n d".toList
+    ∧ (run (contScanner '\n' ' ') ["a\n b\nc\ne\n".toList, " d".toList]).out = ["a\n b\n".toList, "c\n".toList] := by decide
+
+/-! ### round 5: the trace theorems on concrete runs (kernel-evaluated) -/
+
+section trace_examples
+open TEv
+
+/-- `(?P<l>[^\n]*\n|[^\n]+)` with `groupdict() = {0: text of l}` -/
+private abbrev gdScan : Scanner Char (List (Nat × List Char)) := mapVal (fun v => [(0, v)]) (lineScanner '\n')
+private abbrev vvStr : ValView (List Char) := ⟨fun _ => false, fun v => !v.isEmpty⟩
+/-- converter of key 0: raises ValueError on a line containing 'b', else prefixes '#' -/
+private abbrev convB : List Char → Except Err (List Char) := fun v => if v.contains 'b' then .error .valueError else .ok ('#' :: v)
+private abbrev rd (l : List String) : List (ReadRes Char) := l.map (fun x => .ok x.toList)
+
+-- the hypotheses of the trace theorems are satisfiable
+example : Local gdScan := (lineScanner_local '\n').mapVal _ _
+-- (the reads are chosen so that every round sees >= 3 or <= 1 matches: the traces are the same for the
+-- equivalent guards `> 1`, `>= 2` and the lazier `> 2`)
+-- exhaustion through a path: opened, read(0), reads and yields interleaved lazily, closed
+example : parseTrace { file := .pathStr, chunk := 5, reads := rd ["a\nb\nc", "\nd\ne"] } (.dict []) vvStr gdScan none
+    = [opened, read, read, yielded [(0, "a\n".toList)], yielded [(0, "b\n".toList)], read,
+       yielded [(0, "c\n".toList)], yielded [(0, "d\n".toList)], read, yielded [(0, "e".toList)], closed] := by decide
+-- the consumer closes after the first item: no further read, the file is closed
+example : parseTrace { file := .pathLike, strIsPath := false, chunk := 5, reads := rd ["a\nb\nc", "\nd\ne"] }
+      (.dict []) vvStr gdScan (some 1)
+    = [opened, read, read, yielded [(0, "a\n".toList)], closed] := by decide
+-- a converter raises on the second record: one dict, the file is closed, the exception arrives
+example : parseTrace { file := .pathStr, chunk := 5, reads := rd ["a\nb\nc", "\nd\ne"] } (.dict [(0, convB)]) vvStr gdScan none
+    = [opened, read, read, yielded [(0, "#a\n".toList)], closed, raised .valueError] := by decide
+-- the second read raises
+example : parseTrace { file := .pathStr, chunk := 5, reads := [.ok "a\nb\nc".toList, .error .osError] }
+      (.dict []) vvStr gdScan none
+    = [opened, read, read, yielded [(0, "a\n".toList)], yielded [(0, "b\n".toList)], read, closed, raised .osError] := by decide
+-- str pattern on a binary file (or the reverse): TypeError at the first scan, file closed
+example : parseTrace { file := .pathStr, kindOk := false, chunk := 3, reads := rd ["a\n"] } (.dict []) vvStr gdScan none
+    = [opened, read, read, closed, raised .typeError] := by decide
+-- the caller's file object, consumer closing early: only reads and yields
+example : parseTrace { file := .textFile, chunk := 5, reads := rd ["a\nb\nc", "\nd\ne"] } (.fn (fun g => .ok g)) vvStr gdScan (some 1)
+    = [read, read, yielded [(0, "a\n".toList)]] := by decide
+-- open() fails
+example : parseTrace { file := .pathStr, openErr := some .osError, chunk := 3, reads := rd ["a\n"] } (.dict []) vvStr gdScan none
+    = [raised .osError] := by decide
+-- a group that did not participate (None) and one that matched '' are converted like any other
+example : (castDictE (κ := Nat) ⟨fun v => v.isNone, fun v => v.isSome && v != some []⟩
+      [(1, fun v => .ok (v.map ('!' :: ·))), (2, fun _ => .ok (some ['n'])), (7, fun v => .ok v)]
+      [(0, some ['x']), (1, some []), (2, none)]).toOption
+    = some [(0, some ['x']), (1, some ['!']), (2, some ['n'])] := by decide
+
+end trace_examples
 
 end C20
